@@ -26,4 +26,13 @@ Lemma gyro_rad_spec sg sm m0 m1 m2 u0 u1 u2 ng00 ng01 ng02 ng10 ng11 ng12 ng20 n
           add3 (add3 w2 (bias_rad q0 q1 q2 u0 u1 u2)) (scale3 (sg * d2r) [ng20;ng21;ng22]))
          ++ bias_rad q0 q1 q2 u0 u1 u2 ++ ([0;0;0] ++ w1 ++ w2)).
 Proof. unfold w1, w2, q0, q1, q2. unfold_c20. unfold C20_gyro_rad_R. revert U0 U1 U2. open3. gyro_close. Qed.
+
+(* noise-free (gyr_noise = 0): the bias-corrected gyroscope rows are exactly the ground-truth rates in the output unit *)
+Lemma gyro_rad_zero sm m0 m1 m2 u0 u1 u2 ng00 ng01 ng02 ng10 ng11 ng12 ng20 ng21 ng22 :
+  C20_gyro_rad_R q0w q0x q0y q0z q1w q1x q1y q1z q2w q2x q2y q2z 0 sm m0 m1 m2 u0 u1 u2 ng00 ng01 ng02 ng10 ng11 ng12 ng20 ng21 ng22
+  = Val ((add3 [0;0;0] (bias_rad q0 q1 q2 u0 u1 u2) ++ add3 w1 (bias_rad q0 q1 q2 u0 u1 u2) ++ add3 w2 (bias_rad q0 q1 q2 u0 u1 u2))
+         ++ bias_rad q0 q1 q2 u0 u1 u2 ++ ([0;0;0] ++ w1 ++ w2)).
+Proof.
+  rewrite gyro_rad_spec. apply Val_inj. cbv [add3 scale3 app e nth]. list_eq; ring.
+Qed.
 End Given.
